@@ -188,6 +188,31 @@ def classify_verus(res, canary=None):
     return 'violation', fails, None
 
 
+def confirm_failures_in_isolation(path, res, fails, canary='__vacuity_canary', cap=12):
+    """Guards against proof instability: when one function of a unit fails, the SMT context of the functions verified after
+    it differs and a brittle (quantifier-instantiation dependent) proof can fail although it verifies on its own.  Every
+    failing function is therefore re-verified ALONE (`--verify-root --verify-function`); only failures that persist are kept.
+    Returns (confirmed_failures, dropped_function_names, notes)."""
+    failing = [f[0] for f in verus_functions(res) if f[2] is False and canary not in f[0]]
+    if not failing or len(failing) > cap:
+        return fails, [], []
+    confirmed, dropped, notes = [], [], []
+    unit = os.path.splitext(os.path.basename(path))[0]
+    for name in failing:
+        short = name[len(unit) + 2:] if name.startswith(unit + '::') else name
+        r2 = run_verus(path, timeout=600, extra=['--verify-root', '--verify-function', short])
+        st2, f2, why2 = classify_verus(r2)
+        if st2 == 'ok':
+            dropped.append(name)
+            notes.append('%s failed only in the context of another failing function and verifies in isolation: not a violation' % name)
+        elif st2 == 'violation':
+            confirmed += f2
+        else:
+            # could not be re-verified alone (e.g. the name does not select a unique function): keep what the full run said
+            return fails, [], ['isolation re-verification of %s was not possible (%s); full-run failures kept' % (name, (why2 or '')[:200])]
+    return confirmed, dropped, notes
+
+
 def verus_functions(res):
     """[(function, mode, success, micros)] from the smt function breakdown."""
     out = []
